@@ -20,10 +20,11 @@ TRUSTED = ["model: coq/theories/Model/CQMSpec.v (plain list of polynomials), Exp
 ASSUMPTIONS = ["the base quadratic model of an expression (abc.h adjacency) is abstracted to a list of linear biases and a bag of "
                "interactions over local indices (Adj.v is the detailed mirror)",
                "IEEE-754 arithmetic is exact on the small dyadic coefficients generated"]
-PARTIAL = ["bulk Expression::remove_variables (utils.h remove_by_index path) is modelled (Expr.v m_remove_variables) but neither "
-           "proved equal to iterated single removal nor replayed: it is not reachable from the Python CQM API",
-           "the whole-history refinement C05_cqm_refines_spec is at index level (the C++ API: Model/ExprOps.v); the label layer "
-           "(Variables as a list of labels, property C13) is proved for remove_variable "
-           "(C05_cqm_refines_spec_remove_variable_labels) and tied by the correspondence check for the rest",
-           "refinement is stated as equality of the energy function / of all coefficients (peq); the order of terms inside an "
-           "expression and the presence of explicit zero interactions are compared by the correspondence check only"]
+PARTIAL = ["the label layer (C05_cqm_refines_spec_labels) takes Variables as the list of labels; that the two sparse dicts of "
+           "dimod.variables behave as this list is property C13 (Vars.v/VarsFacts.v); LRelabel carries the explicit guard that the "
+           "relabelled list is duplicate-free (what iter_safe_relabels guarantees), not derived from relabel_ok here",
+           "refinement is equality of the energy function / of all coefficients (peq); the ORDER of variables inside an expression "
+           "and the presence of explicit zero interactions are compared exactly by the correspondence check (index-level replay) "
+           "but are not part of the theorem-level refinement relation",
+           "the add_constraint weight/penalty table and the exception classes of CQMSpec are hand written (the translator "
+           "cqm_rules.py covers vartype limits, change_vartype / flip constants and the discrete-marker rules)"]
